@@ -828,6 +828,8 @@ pub fn gen_world(opts: &WorldOpts) -> World {
             0..=2 => r.near = Some(sbase + (slen as u64 / 2 & !7)),
             // into the (optional) no-access memory-info region at the very top of the address space
             3 if adv => r.near = Some(u64::MAX - 0x8ff),
+            // into the (optional) no-access null page
+            4 if adv => r.near = Some(0x10),
             _ => {}
         }
         let shape_name: &'static str;
